@@ -263,6 +263,8 @@ def run_sequences(ctx, case):
     rng = random.Random(case["seed"])
     inst = case["instance"]
     run = Run(inst)
+    # the instance carries its own metadata, different from the schedule's
+    run.instance.metadata.update({"origin": "jsverif", "optimum": rng.randint(1, 99)})
     run.d.schedule.metadata.update({"who": "jsverif", "n": rng.randint(0, 9)})
     while not run.done():
         o, m = run.choose(rng, rng.choice(["random_ready", "latest_start", "one_job_first"]))
@@ -297,6 +299,13 @@ def run_sequences(ctx, case):
             ctx.violation("c14_schedule_dict_round_trip_differs",
                           {"where": nm, "got": schedule_triples(s), "want": want,
                            "metadata": s.metadata})
+        # the instance travels inside the schedule's dictionary: same operations, name, metadata
+        if s.instance.name != run.instance.name or s.instance.metadata != run.instance.metadata \
+                or [[(tuple(o.machines), o.duration) for o in j] for j in s.instance.jobs] != \
+                [[(tuple(o.machines), o.duration) for o in j] for j in run.instance.jobs]:
+            ctx.violation("c14_schedule_dict_round_trip_changed_the_instance",
+                          {"where": nm, "name": [s.instance.name, run.instance.name],
+                           "metadata": [s.instance.metadata, run.instance.metadata]})
     if content(run.instance) != fp_before:
         ctx.violation("c14_instance_modified", {"by": "from_job_sequences/from_dict"})
     # ------------------------------------------------------------ permutations
